@@ -34,7 +34,7 @@ RULE = ('plan = 2-6 objects (seven stored types; values empty/1 byte/'
         'client of a seeded version. Non-trivial: an object with >= 2 '
         'optional fields was read back after >= 1 restart. Distinct = '
         'trace digest.')
-PROBES = ['proxy_register_with_template', 'group_changed_on_one_object',
+PROBES = ['wrapped_get_then_commit', 'proxy_register_with_template', 'group_changed_on_one_object',
           'restart', 'kill_restart', 'wrapped_key_roundtrip',
           'split_key_roundtrip', 'non_ascii_name', 'empty_mask',
           'full_mask', 'large_value', 'server_generated', 'read_under_2_0',
@@ -226,6 +226,11 @@ def generate(rng, tier, index):
                     max(ver, (1, 0))), 'len': r.choice([128, 256])}
             labels.append(lab)
             steps.append(st)
+        elif x < 0.37 and labels:
+            # somebody fetches a stored key in wrapped form inside a batch
+            # that goes on to change the store
+            steps.append({'do': 'wrapped_get_batch',
+                          'label': r.choice(labels)})
         elif x < 0.41 and labels:
             steps.append({'do': 'modify_group', 'label': r.choice(labels),
                           'index': r.choice([0, 0, 1]),
@@ -578,6 +583,32 @@ def execute(plan):
                         e['alg'], e['len'] = spec['alg'], spec['len']
                     known[st['label']] = e
                     probes['proxy_register_with_template'] += 1
+                elif do == 'wrapped_get_batch':
+                    e = known.get(st['label'])
+                    if e is None:
+                        continue
+                    if 'wk' not in W.labels:
+                        W.request({'actor': 0, 'ver': [1, 2], 'cont': 1,
+                                   'items': [{
+                                       'op': 'Register', 'label': 'wk',
+                                       'otype': 'SymmetricKey', 'attrs': [
+                                           gen.A('Cryptographic Usage Mask',
+                                                 0x10)],
+                                       'obj': {'kft': 1, 'value': '5a' * 16,
+                                               'alg': 3, 'len': 128}},
+                                       {'op': 'Activate'}]})
+                    rp = W.request({'actor': 0, 'ver': [1, 2], 'cont': 1,
+                                    'items': [
+                        {'op': 'Get', 'uid': e['uid'], 'wrapspec': {
+                            'method': 1, 'enc': {'uid': '@wk',
+                                                 'cp': {'mode': 0xD}},
+                            'encoding': 1}},
+                        {'op': 'Register', 'otype': 'SecretData',
+                         'attrs': [gen.A('Cryptographic Usage Mask', 4)],
+                         'obj': {'sdtype': 1, 'value': 'bb' * 8}}]})
+                    if rp is not None and rp.items and \
+                            rp.items[0]['status'] == 0:
+                        probes['wrapped_get_then_commit'] += 1
                 elif do == 'modify_group':
                     e = known.get(st['label'])
                     if e is None or not e.get('groups') or \
